@@ -47,7 +47,7 @@ def sq(ops, lens, ok=True, fail=False, sv=0):
     name = '_'.join(x[3:].lower() for x in ops) + '__' + ('x'.join(map(str, lens)) or 'empty') + ('_w0' if sv else '')
     return (name, '%d, %d, %d, %d, %d, %d, %d, %d, %d, %d' % (o[0], o[1], o[2], o[3], len(lens), ls[0], ls[1], ls[2], (1 if ok else 0) | (2 if fail else 0), sv))
 seq_quick = [
-    sq(['OP_IF', 'OP_1', 'OP_ENDIF'], [1]), sq(['OP_IF', 'OP_1', 'OP_ENDIF'], [1], fail=True, sv=1), sq(['OP_NOTIF', 'OP_2', 'OP_ELSE', 'OP_3'], [1], ok=False, fail=True),
+    sq(['OP_IF', 'OP_1', 'OP_ENDIF'], [1]), sq(['OP_IF', 'OP_ENDIF'], [1], fail=True, sv=1), sq(['OP_NOTIF', 'OP_2', 'OP_ELSE', 'OP_3'], [1], ok=False, fail=True),
     sq(['OP_IF', 'OP_ELSE', 'OP_7', 'OP_ENDIF'], [1]), sq(['OP_IF', 'OP_ENDIF'], [], ok=False, fail=True), sq(['OP_NOTIF', 'OP_VERIF', 'OP_ENDIF'], [1], ok=False, fail=True),
     sq(['OP_IF', 'OP_MUL', 'OP_ENDIF'], [0], ok=False, fail=True), sq(['OP_IF', 'OP_RETURN', 'OP_ENDIF', 'OP_1NEGATE'], [1], fail=True), sq(['OP_ELSE'], [1], ok=False, fail=True),
     sq(['OP_CHECKLOCKTIMEVERIFY'], [4], fail=True), sq(['OP_CHECKLOCKTIMEVERIFY'], [5], fail=True), sq(['OP_CHECKLOCKTIMEVERIFY'], [], fail=True), sq(['OP_CHECKSEQUENCEVERIFY'], [4], fail=True), sq(['OP_CHECKSEQUENCEVERIFY'], [5], fail=True),
